@@ -56,6 +56,7 @@ type fakeConn struct {
 	closed  bool
 	written [][]byte
 	closeCh chan struct{}
+	hook    func(pos int) // called before every read with the index of the next chunk
 }
 
 func newFakeConn(chunks [][]byte) *fakeConn {
@@ -67,6 +68,9 @@ func (f *fakeConn) Read(p []byte) (int, error) {
 	defer f.mu.Unlock()
 	if f.closed {
 		return 0, &net.OpError{Op: "read", Err: net.ErrClosed}
+	}
+	if f.hook != nil {
+		f.hook(f.pos)
 	}
 	if f.pos >= len(f.chunks) {
 		return 0, io.EOF
@@ -166,6 +170,11 @@ type Stream struct {
 	TruncLast int    `json:"trunc_last"` // bytes cut off the end of the stream (0: complete)
 	Cuts      []int  `json:"cuts"`       // chunk sizes; remainder in one chunk
 	Timeouts  []int  `json:"timeouts"`   // chunk indices before which a read timeout is reported
+	// ShutdownAt > 0 (server side): a graceful shutdown reaches the server when the receive
+	// loop is about to read chunk number ShutdownAt; the connection keeps being drained, and
+	// read timeouts after that moment are only scripted while a packet is half received (an
+	// idle connection is legitimately left at the first timeout during a shutdown)
+	ShutdownAt int `json:"shutdown_at,omitempty"`
 }
 
 type Case struct {
@@ -235,6 +244,10 @@ func (s *Stream) build0(M int) (stream []byte, expect [][]byte, protoErr bool) {
 	return
 }
 
+// sM is the maximum packet length of the case being run (chunks needs the framing of the
+// stream for shutdown cases).
+var sM int
+
 func (s *Stream) chunks(stream []byte) [][]byte {
 	// chunks alias the stream: the receive loops only read from them
 	var out [][]byte
@@ -269,6 +282,28 @@ func (s *Stream) chunks(stream []byte) [][]byte {
 	}
 	if to[idx] {
 		out = append(out, nil)
+	}
+	if s.ShutdownAt > 0 {
+		// drop the scripted timeouts that would fall on a packet boundary (or behind the
+		// framed part of the stream) once the shutdown has begun
+		_, expect, _ := s.build(sM)
+		bound := map[int]bool{0: true}
+		off := 0
+		for _, p := range expect {
+			off += len(p)
+			bound[off] = true
+		}
+		framed := off
+		var kept [][]byte
+		pos := 0
+		for i, c := range out {
+			if c == nil && i >= s.ShutdownAt-1 && (bound[pos] || pos >= framed) {
+				continue
+			}
+			kept = append(kept, c)
+			pos += len(c)
+		}
+		out = kept
 	}
 	return out
 }
@@ -408,7 +443,14 @@ func drawCase(side string) func(rt *rapid.T) Case {
 			ns = rapid.IntRange(8, 24).Draw(rt, "nstreams")
 		}
 		for i := 0; i < ns; i++ {
-			c.Streams = append(c.Streams, drawStream(rt, c.M))
+			st := drawStream(rt, c.M)
+			if side == "server" && rapid.IntRange(0, 3).Draw(rt, "shutdown") == 0 {
+				st.ShutdownAt = 1 + rapid.IntRange(0, 12).Draw(rt, "shutdownAt")
+				// make sure the loop is told about reads that bring nothing while a packet is
+				// half received
+				st.Timeouts = append(st.Timeouts, rapid.SliceOfN(rapid.IntRange(0, 30), 1, 6).Draw(rt, "moreTimeouts")...)
+			}
+			c.Streams = append(c.Streams, st)
 		}
 		return c
 	}
@@ -450,6 +492,7 @@ func clipInts(a []int) []int {
 }
 
 func runCase(c Case) *stat.Failure {
+	sM = c.M
 	protocol.SetMaxPackageLength(c.M)
 	defer protocol.SetMaxPackageLength(10485760)
 	if c.Side == "client" {
@@ -514,6 +557,13 @@ func runCase(c Case) *stat.Failure {
 		fc := newFakeConn(s.chunks(stream))
 		results[i] = res{rec: rec, fc: fc}
 		srv := transport.NewTarsServer(rec, &transport.TarsServerConf{Proto: "tcp", Address: "127.0.0.1:0", IdleTimeout: 600 * time.Second})
+		if at := s.ShutdownAt; at > 0 {
+			fc.hook = func(pos int) {
+				if pos >= at-1 {
+					srv.VerifMarkClosed()
+				}
+			}
+		}
 		wg.Add(1)
 		go func(i int) {
 			defer wg.Done()
